@@ -350,3 +350,15 @@ func noteInputDisplays(v V, ext *Ext) {
 		ext.NoteParse(v.S)
 	}
 }
+
+
+// RunBuilt executes a case on an already built schema.
+func RunBuilt(schema z.ZogSchema, c *Case, rec *Recorder) *Result {
+	var data any
+	if c.Mode == "p" {
+		data = c.Input.Go()
+	}
+	return runOn(schema, c, rec, data)
+}
+
+func NoteInput(v V, ext *Ext) { noteInputDisplays(v, ext) }
